@@ -1978,7 +1978,7 @@ pub fn gen_corruption(rng: &mut Prng) -> CorruptSpec {
         31..=58 => CorruptSpec::Cell(rng.next_u64() as u32, rng.next_u64() as u32, rng.below(4) as u8),
         59..=70 => CorruptSpec::StreamLen(rng.next_u64() as u32, rng.below(5) as u8, rng.next_u64() as u32),
         71..=74 => CorruptSpec::PoolHeader(rng.below(4) as u8),
-        75..=84 => CorruptSpec::PoolEntry(rng.next_u64() as u32, rng.below(6) as u8),
+        75..=84 => CorruptSpec::PoolEntry(rng.next_u64() as u32, rng.below(8) as u8),
         85..=92 => CorruptSpec::PropSet(rng.below(18) as u8, rng.next_u64() as u32),
         93..=94 => CorruptSpec::DataHighBit(rng.next_u64() as u32),
         95..=96 => CorruptSpec::AddEntry(rng.below(8) as u8),
